@@ -87,6 +87,9 @@ def handle (line : String) : String :=
       let lens ← parseLens (← field ws "lens")
       let fail ← field ws "fail"
       let failOp : Option Nat := if fail.startsWith "e" then (fail.drop 1).toString.toNat? else none
+      -- `p<op>`: the operator itself panicked (abstract-operator observable, see harness)
+      let panicOp : Option Nat := if fail.startsWith "p" then (fail.drop 1).toString.toNat? else none
+      let failOp := if panicOp.isSome then panicOp else failOp
       let infos : List (Option OpInfo) := nodes.map (fun n => n.2)
       let info (i : Nat) : Option OpInfo := (infos[i]?).join
       let ops : Ops Nat :=
@@ -103,7 +106,10 @@ def handle (line : String) : String :=
           usePool := pool == "1", neverInPlace := nip == "1" }
       let caps0 : Nat → Option (Nat × Bool) := fun id => (caps.lookup id).join
       let res := runPlan ops run caps0 plan outs
-      pure (showStatus res.outcome ++ "|" ++
+      let status := match res.outcome, panicOp with
+        | .error (.opErr op), some p => if op == p then s!"panic@{op}" else showStatus res.outcome
+        | o, _ => showStatus o
+      pure (status ++ "|" ++
         joinWith ";" (res.steps.map showStep) ++ "|" ++
         joinWith "," (res.outs.map (fun p => s!"{p.1}{if p.2 then "t" else "c"}")))
     r.getD "bad-request"
